@@ -8,7 +8,7 @@
     re-invocations after yields. *)
 From Coq Require Import NArith Arith List Bool.
 Import ListNotations.
-From NV Require Import Machine.Dfa Machine.Sem Machine.Bisim Machine.BBisim Regex.Re Ref.Lang Ref.RefSem Ref.Sim Ref.RefCert.
+From NV Require Import Machine.Dfa Machine.Sem Machine.Bisim Machine.BBisim Regex.Re Ref.Lang Ref.RefSem Ref.Sim Ref.RefCert Machine.Chunk Machine.Drive Ref.CallLevel.
 
 Theorem c01_compiled_trace_is_a_reading : forall syms p d, sim_cert syms p d = true ->
   forall D exec evalt K2 input, (forall s, In s input -> In s syms) -> forall x tr,
@@ -16,6 +16,16 @@ Theorem c01_compiled_trace_is_a_reading : forall syms p d, sim_cert syms p d = t
   reading D exec evalt (ref_spec (ref_table syms p)) (to_stree (ref_table syms p) (start_tree p)) input x tr.
 Proof. exact sim_cert_sound. Qed.
 Print Assumptions c01_compiled_trace_is_a_reading.
+
+(** the same at the level of calls: a caller who runs start(), passes its input to feed and calls feed again after
+    every yield code with what the reported cursor position has not passed (Ref/CallLevel.cdrive over Sem.feed_go,
+    the call-level model of C02 / C10) observes a trace the reading allows *)
+Theorem c01_caller_observes_a_reading : forall syms p d, sim_cert syms p d = true -> dfa_wf d = true ->
+  forall D exec evalt fuel input, (forall s, In s input -> In s syms) -> forall x tr,
+  cdrive D exec evalt d fuel input x = Some tr ->
+  reading D exec evalt (ref_spec (ref_table syms p)) (to_stree (ref_table syms p) (start_tree p)) input x tr.
+Proof. exact caller_sees_a_reading. Qed.
+Print Assumptions c01_caller_observes_a_reading.
 
 (** the step lemma behind it: whatever the machine does on one symbol from a related pair is one of the
     options of the reading, event for event, and the successors are related again *)
@@ -42,6 +52,13 @@ Definition ex_dfa : dfa := (mkD [(SNormal [(mkT 23158417847463239084714197001737
  SFail] 0 [5] AEnd false false).
 Definition byte_syms : list sym := map N.of_nat (seq 0 256).
 Example c01_example : sim_cert byte_syms ex_prog ex_dfa = true.
+Proof. vm_compute. reflexivity. Qed.
+
+Example c01_example_wf : dfa_wf ex_dfa = true.
+Proof. vm_compute. reflexivity. Qed.
+(** and the caller's loop really produces a trace on it: a c, one byte per... the whole input in one call *)
+Example c01_example_calls :
+  cdrive (list N) (fun p _ x => p :: x) (fun _ _ _ => true) ex_dfa 3 [97; 98; 99]%N [] = Some [IPrim 0%N; IPrim 1%N; IRet RDone].
 Proof. vm_compute. reflexivity. Qed.
 
 (** a machine that calls the hook one symbol too late AND a second time is refused *)
